@@ -406,6 +406,11 @@ def check_find_stuff(cx):
              fail_detail='the scan does not run over every window of the whole argument')
     somes = [pos for pos, st in fn.statements() if st['k'] == 'assign' and st['pl']['l'] == 0 and st['rv']['k'] == 'agg' and st['rv']['variant'] == 'Some']
     nones = [pos for pos, st in fn.statements() if st['k'] == 'assign' and st['pl']['l'] == 0 and st['rv']['k'] == 'agg' and st['rv']['variant'] == 'None']
+    # (an early `return None` for inputs shorter than one window says what the scan would say)
+    short_none = [p for p in nones if any((r := as_relation((e, v))) and r[0] == 'Lt' and is_call(r[1], 'len') and r[1].strip().args[0].strip().kind == 'param'
+                                          and (r[2].is_const_int(2) or (is_call(r[2], 'len') and [k.info.get('ref_bytes') for k in r[2].strip().args[0].consts()] == [seq]))
+                                          for e, v, ed in fn.facts_at(p.bb))]
+    nones = [p for p in nones if p not in short_none]
     ok_s = len(somes) == 1 and len(nones) == 1 and len(nxt) == 1
     if ok_s:
         pos = somes[0]
